@@ -28,6 +28,29 @@ def render_spec(toks, rng, canonical=False):
     return lead + "".join(p + (rng.choice(WS) if i < len(parts) - 1 else "") for i, p in enumerate(parts)) + trail
 
 
+# identifiers with combining marks (legal Python identifiers, stable under NFKC): every fourth row is spelled with them
+UNI = {"a": "\u0932\u0902\u092c\u093e\u0908", "b": "\u0637\u064f\u0648\u0644", "v": "\u0906\u0915\u093e\u0930"}
+
+
+def rename(toks, m):
+    def ex(e):
+        if not e:
+            return e
+        if e[0] == "n":
+            return ["n", m.get(e[1], e[1])]
+        if e[0] in ("i", "a"):
+            return e
+        return [e[0], ex(e[1]), ex(e[2])]
+    out = json.loads(json.dumps(toks))
+    for t in out:
+        b = t["base"]
+        if b["k"] == "ident":
+            b["nm"] = m.get(b["nm"], b["nm"])
+        elif b["k"] == "sym":
+            b["e"] = ex(b["e"])
+    return out
+
+
 def worker(args):
     specs_path, lo, hi, out_path, seed = args
     from . import render as R
@@ -37,22 +60,31 @@ def worker(args):
     specs = fac["specs"][lo:hi]
     probes = [tuple(p) for p in fac["probes"]]
     rng = random.Random(seed)
-    QA = PyTree[Float[np.ndarray, "?a"], "T"]
-    QV = PyTree[Float[np.ndarray, "*?v"], "T"]
+    ident = {"a": "a", "b": "b", "v": "v"}
 
-    def establish(q):
-        ok = isinstance(R.zeros((2,)), R.array_ann("a")) and isinstance(R.zeros((3,)), R.array_ann("b")) \
-            and isinstance(R.zeros((2,)), R.array_ann("*v"))
+    def establish(q, nm=ident):
+        ok = isinstance(R.zeros((2,)), R.array_ann(nm["a"])) and isinstance(R.zeros((3,)), R.array_ann(nm["b"])) \
+            and isinstance(R.zeros((2,)), R.array_ann("*" + nm["v"]))
         if q:
-            ok = ok and isinstance(R.zeros((3,)), QA) and isinstance(R.zeros((3,)), QV)
+            ok = ok and isinstance(R.zeros((3,)), PyTree[Float[np.ndarray, "?" + nm["a"]], "T"]) \
+                and isinstance(R.zeros((3,)), PyTree[Float[np.ndarray, "*?" + nm["v"]], "T"])
         return ok
 
     with open(out_path, "w") as f:
         for k, toks in enumerate(specs):
             rid = lo + k
             q = any("?" in t["mods"] for t in toks)
-            s = render_spec(toks, rng, canonical=(rid % 3 == 0))
+            nm = UNI if rid % 4 == 3 else ident
+            s = render_spec(rename(toks, nm) if nm is UNI else toks, rng, canonical=(rid % 3 == 0))
             row = {"id": rid, "kind": "spec", "toks": toks, "str": s, "vec": []}
+            # an illegal specification is illegal whatever the array type - also for the Python scalar types
+            try:
+                Float[float, s]
+                row["build_scalar"] = "ok"
+            except ValueError:
+                row["build_scalar"] = "ValueError"
+            except BaseException as e:  # noqa
+                row["build_scalar"] = "Exc:" + type(e).__name__
             try:
                 ann = Float[np.ndarray, s]
                 row["build"] = "ok"
@@ -67,7 +99,7 @@ def worker(args):
                     h = {}
 
                     def body():
-                        if not establish(q):
+                        if not establish(q, nm):
                             h["pre"] = "prior bindings could not be established"
                         h["r"] = R.verdict(lambda: isinstance(R.zeros(p), hint))
                     R.in_call_context(fac["args"]["n"], body)
@@ -128,7 +160,7 @@ def main(tier):
                 except BaseException as e:  # noqa
                     b = "Exc:" + type(e).__name__
                 f.write(json.dumps({"id": 10_000_000 + i, "kind": "nonstr", "toks": [], "str": repr(x),
-                                    "build": b, "vec": []}) + "\n")
+                                    "build": b, "build_scalar": b, "vec": []}) + "\n")
         files.append(nsp)
         mism, total = validate_rows(chk, "Rows_JtDims", files, name="specs", canary_field="build_canary",
                                     spec="RSpec")
